@@ -37,6 +37,7 @@ def _case(draw, tier):
         (5, ops.tag_op(PIDS, 3, algo, never=True)),
         (3, ops.delete_op(PIDS)),
         (1, ops.dii_op(3)),
+        (1, ops.decoy_op(PIDS)),
         (1, ops.REOPEN))
     return {"cfg": cfg, "contents": cs, "ops": draw(st.lists(ops.on_instances(op), min_size=2, max_size=24))}
 
